@@ -1,9 +1,112 @@
 import OdcGeo.Model.C16
+import OdcGeo.Spec.PySlice
 namespace OdcGeo.C16.Drv
-open OdcGeo OdcGeo.IO
+open OdcGeo OdcGeo.IO OdcGeo.C16
+
+/-- CRS tag: `N` or a natural number -/
+def parseCrs? (s : String) : Option (Option Nat) := parseOpt? parseNat? s
+def fmtCrs (c : Option Nat) : String := fmtOpt toString c
+
+/-- GeoBox token `ny:nx:a;b;c;d;e;f:crs` -/
+def parseGeoBox? (s : String) : Option GeoBox :=
+  match s.splitOn ":" with
+  | [ny, nx, aff, crs] => do
+    let ny ← parseInt? ny; let nx ← parseInt? nx
+    let aff ← parseAff? aff; let crs ← parseCrs? crs
+    pure ⟨ny, nx, aff, crs⟩
+  | _ => none
+
+def fmtGeoBox (g : GeoBox) : String := s!"{g.ny}:{g.nx}:{fmtAff g.aff}:{fmtCrs g.crs}"
+
+/-- BoundingBox token `l;b;r;t;crs` -/
+def parseBBox? (s : String) : Option (BBox Rat) :=
+  match s.splitOn ";" with
+  | [l, b, r, t, crs] => do
+    let l ← parseRat? l; let b ← parseRat? b; let r ← parseRat? r; let t ← parseRat? t
+    let crs ← parseCrs? crs
+    pure ⟨l, b, r, t, crs⟩
+  | _ => none
+
+def fmtBBoxQ (bb : BBox Rat) : String :=
+  s!"{fmtRat bb.left};{fmtRat bb.bottom};{fmtRat bb.right};{fmtRat bb.top};{fmtCrs bb.crs}"
+def fmtBBoxZ (bb : BBox Int) : String :=
+  s!"{bb.left};{bb.bottom};{bb.right};{bb.top};{fmtCrs bb.crs}"
+
+def parsePt? (s : String) : Option (Rat × Rat) :=
+  match s.splitOn ";" with
+  | [x, y] => do let x ← parseRat? x; let y ← parseRat? y; pure (x, y)
+  | _ => none
+
+def fmtRoi (r : Roi) : String := s!"{r.y0}:{r.y1} {r.x0}:{r.x1}"
 
 def run (args : List String) : Option String :=
   match args with
+  | ["consts"] => pure s!"{fmtRat tolOne} {fmtRat tolZero} {fmtRat tolPix}"
+  | ["almostint", x, tol] => do
+    let x ← parseRat? x; let tol ← parseRat? tol
+    pure (fmtBool (isAlmostInt x tol))
+  | ["round", x] => do
+    let x ← parseRat? x
+    pure (fmtInt (pyRound x))
+  | ["splitf", x] => do
+    let x ← parseRat? x
+    let (w, p) := splitFloat x
+    pure s!"{fmtRat w} {fmtRat p}"
+  | ["mzero", x, tol] => do
+    let x ← parseRat? x; let tol ← parseRat? tol
+    pure (fmtRat (maybeZero x tol))
+  | ["bbu", bbs] => do
+    let bbs ← parseList? parseBBox? bbs
+    pure (fmtRes fmtBBoxQ (bboxUnion bbs))
+  | ["bbi", bbs] => do
+    let bbs ← parseList? parseBBox? bbs
+    pure (fmtRes fmtBBoxQ (bboxIntersection bbs))
+  | ["bbor", a, b] => do
+    let a ← parseBBox? a; let b ← parseBBox? b
+    pure (fmtRes fmtBBoxQ (a.or b))
+  | ["bband", a, b] => do
+    let a ← parseBBox? a; let b ← parseBBox? b
+    pure (fmtRes fmtBBoxQ (a.and b))
+  | ["bbround", a] => do
+    let a ← parseBBox? a
+    pure (fmtBBoxZ a.round)
+  | ["bbtr", a, A] => do
+    let a ← parseBBox? a; let A ← parseAff? A
+    pure (fmtBBoxQ (a.transform A))
+  | ["ptr", a, b] => do
+    let a ← parseGeoBox? a; let b ← parseGeoBox? b
+    pure (fmtRes (fun (x, y) => s!"{fmtRat x} {fmtRat y}") (pixelTranslation a b))
+  | ["bbpd", g, ref, tol] => do
+    let g ← parseGeoBox? g; let ref ← parseGeoBox? ref; let tol ← parseRat? tol
+    pure (fmtRes fmtBBoxZ (bboxInPixelDomain g ref tol))
+  | ["union", gs] => do
+    let gs ← parseList? parseGeoBox? gs
+    pure (fmtRes fmtGeoBox (geoboxUnionConservative gs))
+  | ["inter", gs] => do
+    let gs ← parseList? parseGeoBox? gs
+    pure (fmtRes fmtGeoBox (geoboxIntersectionConservative gs))
+  | ["or", a, b] => do
+    let a ← parseGeoBox? a; let b ← parseGeoBox? b
+    pure (fmtRes fmtGeoBox (a.or b))
+  | ["and", a, b] => do
+    let a ← parseGeoBox? a; let b ← parseGeoBox? b
+    pure (fmtRes fmtGeoBox (a.and b))
+  | ["roi", a, b, tol] => do
+    let a ← parseGeoBox? a; let b ← parseGeoBox? b; let tol ← parseRat? tol
+    pure (fmtRes fmtRoi (a.overlapRoi b tol))
+  | ["encl", g, crs, pts] => do
+    let g ← parseGeoBox? g; let crs ← parseCrs? crs
+    let pts ← parseList? parsePt? pts
+    match pts with
+    | [] => none
+    | p :: ps => pure (fmtRes fmtGeoBox (g.enclosing crs p ps))
+  | ["snap", a, b] => do
+    let a ← parseGeoBox? a; let b ← parseGeoBox? b
+    pure (fmtRes fmtGeoBox (a.snapTo b))
+  | ["sel", n, a, b] => do
+    -- Spec/PySlice validation: indices of a length-n axis selected by `a:b`
+    let n ← parseNat? n; let a ← parseInt? a; let b ← parseInt? b
+    pure (fmtList fmtInt (PySlice.selList n (.slc (some a) (some b))))
   | _ => none
 
 end OdcGeo.C16.Drv
